@@ -151,8 +151,9 @@ pub fn create_dir_all<P: AsRef<Path>>(path: P) -> Result<()> {
 
         // Create from root down
         for dir in to_create.into_iter().rev() {
-            // Skip if it already exists (as file or dir)
-            if ctx.fs.dir_exists(&dir) || ctx.fs.file_exists(&dir) {
+            // Skip if it already exists as a directory; a file of that
+            // name makes `mkdir` fail with "File exists", as it does in std.
+            if ctx.fs.dir_exists(&dir) {
                 continue;
             }
             ctx.fs.mkdir(&dir, ctx.now).map_err(Error::other)?;
@@ -1591,7 +1592,7 @@ fn create_dir_all_with_mode<P: AsRef<Path>>(path: P, mode: u32) -> Result<()> {
 
         // Create from root down
         for dir in to_create.into_iter().rev() {
-            if ctx.fs.dir_exists(&dir) || ctx.fs.file_exists(&dir) {
+            if ctx.fs.dir_exists(&dir) {
                 continue;
             }
             ctx.fs
